@@ -13,17 +13,25 @@ LOCKS_WS = os.path.join(vlib.VERIF, "harness-locks")
 LOCKS_TARGET = os.path.join(vlib.CACHE, "target-locks")
 BIN = os.path.join(LOCKS_TARGET, "debug", "c05")
 PAIRING = "C05-metadata-vector-pairing"
+RESURRECT = "C05-drain-resurrects-concurrently-deleted-document"
+# oracle failure kind -> (classifier id, model witness)
+CLASSES = {
+    "pairing": (PAIRING, "Properties.C05.C05_pairing_refuted / C05_pairing_refuted_bulk (pair_sched, bulk_sched)"),
+    "drain-resurrect": (RESURRECT, "Properties.C05.C05_drain_resurrects_deleted_refuted (res_sched, hot_tier_hard_limit = 1)"),
+}
 
 THEOREMS = {"Properties.C05": [
     "C05_read_has_lin_point", "C05_meta_has_lin_point", "C05_register_linearizable",
     "C05_real_time_order", "C05_linearisation_subsequence", "C05_read_value_written",
     "C05_read_sees_completed_write", "C05_pairing_refuted", "C05_pairing_refuted_bulk",
-    "C05_pairing_without_interleaved_write",
+    "C05_pairing_without_interleaved_write", "C05_read_after_completed_delete",
+    "C05_drain_resurrects_deleted_refuted",
     "C05_insert_err_after_effect_witness", "C05_nonvacuous"]}
 PINS = {"Properties.C05": {
     "_preamble": "From Coq Require Import List NArith ZArith Bool Arith Sorted. From Kyro Require Import Model.TMap Model.Tiered Model.Conc05 Proofs.Conc05Proofs. Import ListNotations.",
-    "C05_read_has_lin_point": "forall (digest : vec -> dgst), (forall a b : vec, digest a = digest b -> a = b) -> forall sh0 threads sched g, crun digest (ginit sh0 threads) sched = Some g -> forall t c cl r inv res id val, In (HRes t c cl r inv res) (g_hist g) -> In (id, val) (vec_components r) -> exists k gk, inv <= k <= res /\\ crun digest (ginit sh0 threads) (firstn (S k) sched) = Some gk /\\ option_map c_vec (lookup id (s_cold (g_sh gk))) = val",
-    "C05_pairing_refuted": "exists (digest : vec -> dgst), (forall a b : vec, digest a = digest b -> a = b) /\\ exists sh0 threads sched g t c r inv res id v m, crun digest (ginit sh0 threads) sched = Some g /\\ In (HRes t c (CGetDoc id) r inv res) (g_hist g) /\\ In (id, (v, m)) (pair_components r) /\\ mixed_pair (chron (g_log g)) (s_cold sh0) id v m",
+    "C05_read_has_lin_point": "forall (digest : vec -> dgst) (hard : nat), (forall a b : vec, digest a = digest b -> a = b) -> forall sh0 threads sched g, crun digest hard (ginit sh0 threads) sched = Some g -> forall t c cl r inv res id val, In (HRes t c cl r inv res) (g_hist g) -> In (id, val) (vec_components r) -> exists k gk, inv <= k <= res /\\ crun digest hard (ginit sh0 threads) (firstn (S k) sched) = Some gk /\\ option_map c_vec (lookup id (s_cold (g_sh gk))) = val",
+    "C05_drain_resurrects_deleted_refuted": "exists (digest : vec -> dgst) (hard : nat), (forall a b : vec, digest a = digest b -> a = b) /\\ exists sh0 threads sched g id v td cd invd resd tr cr ar invr resr, crun digest hard (ginit sh0 threads) sched = Some g /\\ In (HRes td cd (CDelete id) (RDel true) invd resd) (g_hist g) /\\ In (HRes tr cr (CQuery ar id) (RVec id (Some v)) invr resr) (g_hist g) /\\ resd < invr /\\ never_inserted g id",
+    "C05_pairing_refuted": "exists (digest : vec -> dgst) (hard : nat), (forall a b : vec, digest a = digest b -> a = b) /\\ exists sh0 threads sched g t c r inv res id v m, crun digest hard (ginit sh0 threads) sched = Some g /\\ In (HRes t c (CGetDoc id) r inv res) (g_hist g) /\\ In (id, (v, m)) (pair_components r) /\\ mixed_pair (chron (g_log g)) (s_cold sh0) id v m",
 }}
 
 
@@ -52,36 +60,41 @@ def run_driver(ctx, out, n, tier, seed, replay=None):
 def brief(case):
     """the part of a case a reader needs to replay it: states, programs, schedule, observed results"""
     keep = ("kind", "state_name", "states", "call", "thread_A", "thread_B", "schedule", "pause_before_section",
-            "result", "result_A", "result_B", "initial", "programs", "observed", "canonical_writes_in_order")
+            "result", "result_A", "result_B", "then", "result_then", "hard_limit", "initial", "programs", "observed", "canonical_writes_in_order")
     return {k: case[k] for k in keep if k in case}
 
 
 def split_failures(ctx, summ):
-    """known-finding classification over the specific input class; returns the list of unknown failures"""
-    pairing = [f for f in summ["oracle_failures"] if f["kind"] == "pairing"]
-    other = [f for f in summ["oracle_failures"] if f["kind"] != "pairing"]
-    unknown = list(other)
-    if pairing:
-        # prefer the witness schedule of C05_pairing_refuted for a stable report
-        def rank(f):
-            c = f["case"]
-            return (0 if (c.get("state_name") == "fresh-insert" and c.get("thread_A", {}).get("op") == "get_document_with_metadata"
-                          and c.get("pause_before_section") == 1) else 1)
-        pairing.sort(key=rank)
-        known = ctx.classify_known(PAIRING)
-        ops = sorted({f["case"].get("thread_A", {}).get("op", "stress") for f in pairing})
+    """known-finding classification over the SPECIFIC input classes; returns (failures per class, unknown failures)"""
+    by_kind = {k: [f for f in summ["oracle_failures"] if f["kind"] == k] for k in CLASSES}
+    unknown = [f for f in summ["oracle_failures"] if f["kind"] not in CLASSES]
+
+    def rank(f):
+        # prefer the witness schedules of the refutation theorems for a stable report
+        c = f["case"]
+        if f["kind"] == "pairing":
+            return 0 if (c.get("state_name") == "fresh-insert" and c.get("thread_A", {}).get("op") == "get_document_with_metadata"
+                         and c.get("pause_before_section") == 1) else 1
+        return 0 if (c.get("state_name") == "limit/fresh-insert" and c.get("thread_A", {}).get("op") == "delete"
+                     and c.get("pause_before_section") == 1) else 1
+    head = []
+    for kind, fs in by_kind.items():
+        if not fs:
+            continue
+        fs.sort(key=rank)
+        known = ctx.classify_known(CLASSES[kind][0])
+        ops = sorted({f["case"].get("thread_A", {}).get("op", "stress") + "||" + f["case"].get("thread_B", {}).get("op", "") for f in fs})
         if known:
-            ctx.known_hit(known, "%d mixed (vector, metadata) pairs returned by the real engine in %s; e.g. %s" % (
-                len(pairing), ", ".join(ops), pairing[0]["why"][:200]))
+            ctx.known_hit(known, "%d failing schedules/histories on the real engine (%s); e.g. %s" % (len(fs), ", ".join(ops), fs[0]["why"][:200]))
         else:
-            unknown = [pairing[0]] + unknown
-    return pairing, unknown
+            head.append(fs[0])
+    return by_kind, head + unknown
 
 
 def report(ctx, f, extra=None):
     obj = {"property": "C05", "kind": "oracle:" + f["kind"], "why": f["why"],
-           "classifier_id": PAIRING if f["kind"] == "pairing" else None,
-           "model_witness": "Properties.C05.C05_pairing_refuted / C05_pairing_refuted_bulk (pair_sched, bulk_sched)" if f["kind"] == "pairing" else None,
+           "classifier_id": CLASSES.get(f["kind"], (None, None))[0],
+           "model_witness": CLASSES.get(f["kind"], (None, None))[1],
            "case": brief(f["case"]),
            "replay_cmd": "./check C05 --replay <this file>"}
     if extra:
@@ -131,11 +144,11 @@ def run(ctx):
         evaluated += vlib.parse_numbers(tags["count"].split(":")[0])[0]
     bad = sorted(set(bad))
     ctx.say("coqc evaluated %d cases against the model, %d disagree" % (evaluated, len(bad)))
-    pairing, unknown = split_failures(ctx, summ)
+    by_kind, unknown = split_failures(ctx, summ)
     ctx.cov.update({
         "evaluations": summ["cases"],
         "distinct_nontrivial": summ["nontrivial"],
-        "rule": "solo: 8 planted states (absent / fresh insert / cold+L1 / stale mirror+L1 / corrupt mirror+L1 / orphans / all fresh / cold only) x 7 calls run alone with the lock recorder on; directed: for each of those, call A stopped by the gate table before EACH of its top-level critical sections while B in {insert new, delete, query, get_document, insert same vector other metadata} runs to completion (one preemption, exhaustive over the cut point; quick tier thins read-only B's on the long insert program); stress: VERIF_SEED-derived programs of 2-4 calls on 2 ids for 2-3 OS-scheduled threads with tagged values. Non-trivial = distinct (state, A, B, cut, results) with a write involved and the cut strictly inside A, plus distinct stress histories in which a write overlapped another call in real time (recorder order)",
+        "rule": "at hot_tier_hard_limit = 1: insert of another id runs the emergency drain (solo skeleton in 3 states; directed: delete(7) cut at every section vs that insert, and that insert cut at every section vs delete / insert / read of the drained id 7, each followed by a point read of 7 after both returned). Otherwise: solo: 8 planted states (absent / fresh insert / cold+L1 / stale mirror+L1 / corrupt mirror+L1 / orphans / all fresh / cold only) x 7 calls run alone with the lock recorder on; directed: for each of those, call A stopped by the gate table before EACH of its top-level critical sections while B in {insert new, delete, query, get_document, insert same vector other metadata} runs to completion (one preemption, exhaustive over the cut point; quick tier thins read-only B's on the long insert program); stress: VERIF_SEED-derived programs of 2-4 calls on 2 ids for 2-3 OS-scheduled threads with tagged values. Non-trivial = distinct (state, A, B, cut, results) with a write involved and the cut strictly inside A, plus distinct stress histories in which a write overlapped another call in real time (recorder order)",
         "samples": summ["samples"][:3],
         "histogram": summ["histogram"],
         "solo_cases": summ["solo"], "directed_schedules": summ["directed"], "stress_histories": summ["stress"],
@@ -143,7 +156,7 @@ def run(ctx):
         "model_disagreements": len(bad),
         "model_disagreements_by_part": {k: len(v) for k, v in bad_parts.items()},
         "oracle_failures": len(summ["oracle_failures"]),
-        "oracle_failures_pairing_class": len(pairing),
+        "oracle_failures_by_recorded_class": {CLASSES[k][0]: len(v) for k, v in by_kind.items()},
         "harness_problems": len(summ["harness_problems"]),
         "observations_outside_the_read_clauses": [{"what": x["what"], "count": x["count"]} for x in summ["observations"]],
     })
@@ -151,7 +164,12 @@ def run(ctx):
         ctx.notes.append("observed on the real engine (%d directed schedules): %s — not a read-clause failure; modelled (C05_insert_err_after_effect_witness / RDel) and linearised as a write" % (x["count"], x["what"]))
     # --- decide
     if unknown:
-        report(ctx, unknown[0], {"other_failures": len(unknown) - 1})
+        seen = set()
+        for f in unknown:
+            if f["kind"] in seen:
+                continue
+            seen.add(f["kind"])
+            report(ctx, f, {"failures_of_this_kind": len([x for x in summ["oracle_failures"] if x["kind"] == f["kind"]])})
         return
     broken = []
     if not proofs_ok:
